@@ -4,9 +4,24 @@ From Coq Require Import List ZArith Bool Arith.
 From EpyV Require Import Lib.Prelude Model.Loci.
 Import ListNotations.
 
-(* a call of the history as one instance sees it: made through its own API, or through the API of
-   another instance of the same simulation (only compartment calls are generated there) *)
-Inductive top := Own (o : op) | Other.
+(* a call of the history as one instance sees it: made through its own API (one of the six single-element calls, or
+   one of the four bulk calls), or through the API of another instance of the same simulation (only compartment calls
+   are generated there) *)
+(* Bulk os: one call of Process.addNodesFrom / removeNodesFrom / addEdgesFrom / removeEdgesFrom, which loops over its
+   argument calling the single-element method (self.addNode(n, **kwds), self.removeNode(n), ...): the elements in
+   order, stopping at the first element whose call raises (the exception leaves the loop); the implementation is
+   observed once, after the whole call *)
+Inductive top := Own (o : op) | Other | Bulk (os : list op).
+
+Fixpoint bulk_out (tbl : list spec) (s : state) (os : list op) : state * outcome :=
+  match os with
+  | [] => (s, Done)
+  | o :: r => let so := step_out tbl s o in
+              match snd so with
+              | Done => bulk_out tbl (fst so) r
+              | _ => so
+              end
+  end.
 
 Record obs_t := {
   o_raised : bool;                         (* the call raised an exception *)
@@ -54,6 +69,9 @@ Fixpoint check_trace (tbl : list spec) (u : list Z) (s : state) (ops : list top)
       outcome_matches (snd so) (o_raised ob) && check_state u (fst so) ob && check_trace tbl u (fst so) ops' obs'
   | Other :: ops', ob :: obs' =>
       check_state u s ob && check_trace tbl u s ops' obs'
+  | Bulk os :: ops', ob :: obs' =>
+      let so := bulk_out tbl s os in
+      outcome_matches (snd so) (o_raised ob) && check_state u (fst so) ob && check_trace tbl u (fst so) ops' obs'
   | _, _ => false
   end.
 
